@@ -1,7 +1,7 @@
 """Structure-aware script generators for the correspondence check. Every random choice comes from the
 `random.Random` instance passed in, so (property, seed, tier) determines the scripts exactly.
 A *case* is a list of request lines starting with `case <name>`; cases are independent."""
-import random
+import random, os, json
 
 MAXU = 2**64 - 1
 
@@ -1043,3 +1043,97 @@ GENERATORS = {'C01': gen_C01, 'C02': gen_C02, 'C03': gen_C03, 'C04': gen_C04, 'C
               'C07': gen_C07, 'C08': gen_C08, 'C09': gen_C09, 'C10': gen_C10, 'C11': gen_C11, 'C12': gen_C12,
               'C13': gen_C13, 'C14': gen_C14, 'C15': gen_C15, 'C16': gen_C16, 'C17': gen_C17, 'C18': gen_C18,
               'C19': gen_C19}
+
+# ------------------------------------------------------------------------------------------------
+# Literal-directed search on large values (used only after a proof obligation or the correspondence broke).
+# The requests are `big <kind> <n> <seed>`: self-checking serialization requests answered by the
+# implementation alone (harness/src/big.rs); the property is decided from the fields of the answer, so no model
+# run is needed and values far larger than the model driver can evaluate are affordable.
+
+LITERAL_PIN = os.path.join(os.path.dirname(os.path.abspath(__file__)), 'pinned_literals.json')
+
+def mine_literals(repo):
+    """integer literals, `1 << k` and `a * b` of literals in the sources under src/ (values in [64, 2^32])"""
+    import re
+    vals = set()
+    for dp, _, fns in os.walk(os.path.join(repo, 'src')):
+        for fn in fns:
+            if not fn.endswith('.rs'): continue
+            src = open(os.path.join(dp, fn), errors='replace').read()
+            src = re.sub(r'//[^\n]*', '', src)
+            src = re.sub(r'/\*.*?\*/', '', src, flags=re.S)
+            src = re.sub(r'"(\\.|[^"\\])*"', '""', src)
+            def lit(s):
+                s = re.sub(r'(usize|u64|u32|u16|u8|isize|i64|i32)$', '', s.replace('_', ''))
+                try: return int(s, 16) if s.lower().startswith('0x') else int(s, 2) if s.lower().startswith('0b') else int(s)
+                except ValueError: return None
+            L = r'(0[xX][0-9a-fA-F_]+|0[bB][01_]+|\d[\d_]*)(?:usize|u64|u32|u16|u8|isize|i64|i32)?'
+            for m in re.finditer(r'\b' + L + r'\b', src):
+                v = lit(m.group(1))
+                if v is not None: vals.add(v)
+            for m in re.finditer(r'\b' + L + r'\s*<<\s*' + L + r'\b', src):
+                a, b = lit(m.group(1)), lit(m.group(2))
+                if a is not None and b is not None and b < 40: vals.add(a << b)
+            for m in re.finditer(r'\b' + L + r'\s*\*\s*' + L + r'\b', src):
+                a, b = lit(m.group(1)), lit(m.group(2))
+                if a is not None and b is not None: vals.add(a * b)
+    return sorted(v for v in vals if 64 <= v <= 2**32)
+
+def new_literals(repo):
+    cur = mine_literals(repo)
+    try: pinned = set(json.load(open(LITERAL_PIN)))
+    except Exception: pinned = set()
+    return [v for v in cur if v not in pinned]
+
+BIG_KINDS = [  # (kind, n as a function of the element count c, limit on n)
+    ('vec_u8', lambda c: c, 1 << 23), ('vec_u64', lambda c: c, 1 << 22), ('vec_u16', lambda c: c, 1 << 22),
+    ('bv', lambda c: 64 * c - 17, 1 << 28), ('db', lambda c: c, 1 << 22), ('cv', lambda c: c, 1 << 22),
+    ('r9', lambda c: 64 * c, 1 << 27), ('r9s0', lambda c: 1024 * c - 5, 1 << 27), ('r9s1', lambda c: 1024 * c - 5, 1 << 27),
+    ('da', lambda c: 64 * c, 1 << 27), ('da1', lambda c: 1024 * c - 3, 1 << 27), ('vec_bool', lambda c: c, 1 << 23),
+    ('do', lambda c: c, 1 << 21), ('ef', lambda c: c, 1 << 21), ('ps', lambda c: c, 1 << 21), ('wm', lambda c: c, 1 << 20),
+    ('sa', lambda c: 64 * c, 1 << 26), ('vec_u32', lambda c: c, 1 << 22), ('vec_i64', lambda c: c, 1 << 22)]
+
+def big_search_lines(literals):
+    """requests ordered so that every literal gets its most telling sizes first"""
+    Ls = [v for v in literals if 256 <= v <= 2**28][:8]
+    for d in (1 << 16, 1 << 20):
+        if d not in Ls: Ls.append(d)
+    rounds = [lambda L: L + 3, lambda L: L // 8, lambda L: L, lambda L: 2 * L, lambda L: L // 2, lambda L: L + 1,
+              lambda L: L // 4, lambda L: L - 1, lambda L: L // 8 + 1, lambda L: 3 * L + 7, lambda L: L // 2 + 1, lambda L: 2 * L // 8]
+    out, seen = [], set()
+    for ri, f in enumerate(rounds):
+        for L in Ls:
+            c = f(L)
+            if c < 16: continue
+            for kind, fn, lim in BIG_KINDS:
+                n = fn(c)
+                if n > lim or n <= 0: continue
+                seed = 3 if kind in ('r9s0', 'r9s1', 'da1') else (ri + len(out)) % 4 + 4 * (len(out) % 16)
+                key = (kind, n)
+                if key in seen: continue
+                seen.add(key); out.append('big %s %d %d' % (kind, n, seed))
+    return out
+
+def big_oracle(prop, ans):
+    """None = the answer meets the property's clauses; else what fails"""
+    if ans == 'ctor-err': return None
+    if ans == 'panic': return 'panic'
+    import re
+    f = dict(re.findall(r'(\w+)=(.*?)(?= \w+=|$)', ans))
+    if 'size' not in f: return 'unparsable answer'
+    if prop == 'C08':
+        if not (f.get('ret') == f.get('sib') == f.get('size')): return 'serialize_into returned %s, size_in_bytes %s, bytes written %s' % (f.get('ret'), f.get('sib'), f.get('size'))
+        if f.get('consumed') != f.get('size') or f.get('eq') != '1': return 'round trip: consumed=%s of %s bytes, equal=%s' % (f.get('consumed'), f.get('size'), f.get('eq'))
+        if f.get('sched') != '%s/1' % f.get('size'): return 'reader delivering the bytes in pieces: %s' % f.get('sched')
+        return None
+    if prop == 'C13':
+        if f.get('trunc_ok') != '0' or f.get('trunc_panic') != '0': return 'strict prefix of %s of %s bytes: Ok on %s, panic on %s of the sampled prefixes' % (f.get('first_bad'), f.get('size'), f.get('trunc_ok'), f.get('trunc_panic'))
+        return None
+    return None
+
+BIG_SEARCH_PROPS = ('C08', 'C13')
+
+if __name__ == '__main__':
+    import sys
+    if len(sys.argv) >= 3 and sys.argv[1] == '--pin-literals':
+        json.dump(mine_literals(sys.argv[2]), open(LITERAL_PIN, 'w')); print('pinned', len(mine_literals(sys.argv[2])), 'literals')
